@@ -84,7 +84,7 @@ Definition macro_em (s : st) : st :=
           let '(use, s') := if negb (inl s3) then (true, s3) else is_punct_arg a s3 in
           if use then let '(p, s'') := render_text a s' in (p, r, s'') else ([], a :: r, s')
       end in
-    let s5 := end_markup_block (sc_tag sc) punct s4 in
+    let s5 := if par s4 then end_markup_block (sc_tag sc) punct s4 else w punct s4 in
     let s6 := match rest with
               | [] => s5
               | _ => if negb (inl s5) then err "useless args in macro Em" s5
@@ -208,7 +208,7 @@ Fixpoint closers (fuel : nat) : (st -> st) * (st -> st) * (string -> st -> st) :
           else if str_eqb tag (R "table") then
             let s' := if item then end_table_row (end_table_cell (close_unclosed_inline (end_par PItem s5))) else s5 in
             match nth_error (tinfo s') (tcount s') with
-            | None => set_panic "macroElProcess: Table.info index out of range" s'
+            | None => (end_table (mkTd [] 0%nat []) s') <| ttitscope := false |> <| tscope := false |> <| tcell := 0%nat |> <| tcols := 0%nat |> <| tcount ::= S |>
             | Some ti => (end_table ti s') <| ttitscope := false |> <| tscope := false |> <| tcell := 0%nat |> <| tcols := 0%nat |> <| tcount ::= S |>
             end
           else s5 in
